@@ -542,7 +542,7 @@ theorem collapse_num (n : Tri) (lo hi : Option Bound)
         have hne : (Num.cmp l.v h'.v == 0) = false := by
           have : ¬ Num.cmp l.v h'.v = 0 := by omega
           simpa using this
-        simp [hi2, numEq?, h2 this, hne]
+        simp [hi2, numEq?, EqOracle.eq, numEqPartial, h2 this, hne]
       · simp [hi2]
 
 theorem unknown_rt_num (E : Ext) (n : Tri) (lo hi : Option Bound) (h : rfnOK E .number (.num n lo hi) = true) :
